@@ -50,7 +50,12 @@ fn ct(t: &mut Tape<'_>) -> CT {
 }
 
 fn content_op(t: &mut Tape<'_>, ascii: bool) -> Op {
-    match t.below(11) {
+    match t.below(16) {
+        11 => Op::StartBefore(s(t, ascii), ct(t)),
+        12 => Op::StartAfter(s(t, ascii), ct(t)),
+        13 => Op::StreamPrepend(vec![s(t, ascii), s(t, ascii)], ct(t)),
+        14 => Op::StreamAppend(vec![s(t, ascii)], ct(t)),
+        15 => Op::StreamSetInner(vec![s(t, ascii), s(t, ascii), s(t, ascii)], ct(t)),
         0 | 1 => Op::Before(s(t, ascii), ct(t)),
         2 | 3 => Op::After(s(t, ascii), ct(t)),
         4 => Op::Prepend(s(t, ascii), ct(t)),
@@ -135,7 +140,7 @@ pub fn decode(tape: &[u16]) -> Case {
 }
 
 fn needs_end(op: &Op) -> bool {
-    !matches!(op, Op::Before(..) | Op::StreamBefore(..) | Op::Prepend(..) | Op::SetAttr(..) | Op::RemoveAttr(..))
+    !matches!(op, Op::Before(..) | Op::StreamBefore(..) | Op::Prepend(..) | Op::StreamPrepend(..) | Op::StartBefore(..) | Op::StartAfter(..) | Op::SetAttr(..) | Op::RemoveAttr(..))
 }
 
 /// Resolve the templates against the document: returns (Cfg, expected edits), dropping calls
